@@ -94,4 +94,102 @@ class C03(Spec):
         return ("S",)
 
 
-SPECS = {"C01": C01, "C03": C03}
+def read_frame_obligations(repo, tabs):
+    """R: each keyword function reads of its `schema` argument only the sibling keys the draft lets
+    the keyword consult (C05, C10)."""
+    from pyvc import frames
+    recs = []
+    for d in drafts.DRAFTS:
+        for k, f in tabs[d].keywords.items():
+            unit = repo.units[f]
+            params = frames.param_names(unit.node)
+            if len(params) < 4:
+                recs.append({"name": "%s@draft%d[%s]/R/signature" % (f, d, k), "kind": "R", "status": "failed", "solver": "frames",
+                             "note": "keyword function does not take (validator, value, instance, schema)"})
+                continue
+            keys, problems, callees = frames.schema_reads(repo, f, params[3])
+            allowed = set(drafts.siblings(d, k))
+            ok = keys <= allowed and not problems
+            recs.append({"name": "%s@draft%d[%s]/R/schema-reads" % (f, d, k), "kind": "R",
+                         "status": "discharged" if ok else "failed", "solver": "frames",
+                         "note": "reads of `schema`: %s (allowed siblings %s)%s" % (sorted(keys), sorted(allowed), "; " + "; ".join(problems) if problems else ""),
+                         "search": {"draft": d, "keyword": k, "mode": "siblings", "extra_keys": sorted(keys - allowed)}})
+            # other parameters must not be used as the schema: value/instance are data
+    return recs
+
+
+class C09(Spec):
+    pid = "C09"
+    level = "proof"
+    design_ref = "DESIGN.md section 8 C09"
+    KW = ("minimum", "maximum", "exclusiveMinimum", "exclusiveMaximum", "multipleOf", "divisibleBy")
+    trusted = [
+        "floats are the reals they denote, constrained by an uninterpreted isdouble; a/b is axiomatised: exact when the exact quotient is a double, overflow to inf when beyond the double range (z3's FP theory did not decide the needed lemma, DESIGN.md section 12)",
+        "int -> float conversion raises OverflowError exactly for |n| >= 2**1024 - 2**970; float % is the exact remainder with the sign of the divisor",
+        "fractions.Fraction is exact rational arithmetic",
+        "that a power-of-two divisor without underflow lands in the exact sub-domain is an IEEE-754 fact, assumed",
+    ]
+    assumptions = ["comparisons: exact mathematical order on mixed int/float (CPython compares int and float exactly)",
+                   "multipleOf verdict only on the exact sub-domain of the property; absence of exceptions for all finite operands"]
+    explanation = "Deductive: the six numeric keyword functions are proved against the mathematical order / divisibility over unbounded integers and axiomatised doubles, with every exception edge (OverflowError, ZeroDivisionError, TypeError) shown unreachable."
+
+    def tasks(self, root, tier):
+        return [t for t in tasks_keywords.keyword_tasks(root, _tmo(tier)) if t.k in self.KW]
+
+    def select(self, ob, r):
+        return ob["kind"] in ("F", "S", "P")
+
+
+class C10(Spec):
+    pid = "C10"
+    level = "proof"
+    design_ref = "DESIGN.md section 8 C10"
+    trusted = ["meta-lemma (mechanised in the dispatch obligation, stated on paper for nesting): a key outside dom(VALIDATORS) contributes nothing to the structural equation of iter_errors, and no keyword function reads a non-sibling key (R frames), hence inserting such a pair anywhere leaves the errors unchanged",
+               "frame analysis is syntactic and conservative (pyvc/frames.py): any use of `schema` it cannot classify is reported"]
+    assumptions = ["message texts of oneOf/not mention the sub-schema's repr and therefore do change with added keywords; the property is about the errors' keyword, paths and verdict (DESIGN.md C10)"]
+    explanation = "Tables (AST) contain exactly each draft's vocabulary; iter_errors skips keys without a table entry and looks at nothing but $ref when it is present (dispatch proof); keyword functions read only declared sibling keys (read frames); id_of reads `id` in drafts 3/4 and `$id` in drafts 6/7."
+
+    def tasks(self, root, tier):
+        return (tasks_core.core_tasks(root, 2 * _tmo(tier), which=("iter_errors",)) +
+                [tasks_core.IdOfTask(root, d) for d in drafts.DRAFTS])
+
+    def select(self, ob, r):
+        return ob["kind"] in ("F", "R", "S") and (r["task"].startswith("id_of") or ob["kind"] == "F")
+
+    def table_obligations(self, repo, tabs):
+        return vocab_table_obligations(repo, tabs, extras_only=True) + read_frame_obligations(repo, tabs)
+
+
+class C08(Spec):
+    pid = "C08"
+    level = "proof"
+    design_ref = "DESIGN.md section 8 C08"
+    KW = ("enum", "const", "uniqueItems")
+    trusted = [
+        "spec: jeq (JSON equality) axiomatised structurally in pyvc/smt.py and executable in spec/pyops.py (py_jeq)",
+        "ASSUMED contract of the built-in set: with hashable elements, len(set(xs)) == len(xs) iff no two elements are ==-equal; adding an unhashable element (list, dict) raises TypeError",
+        "equal's recursion terminates: each recursive call is on strictly smaller operands (measure size(one)+size(two), obligation `equal.decreases`)",
+    ]
+    assumptions = ["operands are JSON values (finite floats, no NaN)",
+                   "the triple agreement const c / enum [c] / uniqueItems [c, x] is the corollary of the three keyword contracts being stated over the one relation jeq"]
+    explanation = "equal is proved equivalent to JSON equality by structural induction (its recursive calls use its own contract); uniq is proved on both of its paths (hash path modulo the assumed set contract, pairwise path with the loop invariant seen == container[:k] and pairwise-distinct prefix); enum, const, uniqueItems are proved against K_enum/K_const/K_uniqueItems stated over jeq."
+
+    def tasks(self, root, tier):
+        from contracts import tasks_utils
+        return ([t for t in tasks_keywords.keyword_tasks(root, _tmo(tier)) if t.k in self.KW] +
+                tasks_utils.util_tasks(root, _tmo(tier)))
+
+    def select(self, ob, r):
+        return ob["kind"] in ("F", "S", "P", "L")
+
+    def standins(self, root, tier):
+        from pyvc import driver
+        out = []
+        for which, maxlen in (("equal", 2), ("uniq", 4 if tier == "thorough" else 3)):
+            r = driver.rt_call("pyvc.rt_eq", {"cmd": "search", "root": root, "which": which, "maxlen": maxlen}, root, timeout=3000)
+            out.append({"name": "_utils.%s" % which, "scope": "all %s over a %d-value alphabet%s" % ("pairs" if which == "equal" else "arrays of length <= %d" % maxlen, r["alphabet"], ""),
+                        "cases": r["tried"], "failures": r["failures"], "replay_kind": "eq", "label": "bounded (cross-check of the proof on the real code; not counted as proof)"})
+        return out
+
+
+SPECS = {"C01": C01, "C03": C03, "C08": C08, "C09": C09, "C10": C10}
